@@ -88,6 +88,9 @@ class Elf(BinFormat):
                 elif P.p_type == PT_INTERP:
                     self.dynamic = True
                     self.Phdr.append(P)
+                elif PT_LOOS <= P.p_type <= PT_HIPROC:
+                    # OS-specific or processor-specific segment type
+                    self.Phdr.append(P)
                 elif not P.p_type in Consts.All["p_type"].keys():
                     logger.verbose("invalid segment detected (removed)")
                 else:
@@ -103,6 +106,9 @@ class Elf(BinFormat):
                     S = Shdr(f, offset, lbe, x64)
                     offset += l
                     if S.sh_type in Consts.All["sh_type"].keys():
+                        self.Shdr.append(S)
+                    elif SHT_LOOS <= S.sh_type <= SHT_HIUSER:
+                        # OS-specific, processor-specific or application section type
                         self.Shdr.append(S)
                     else:
                         logger.verbose("unknown sh_type: %d" % S.sh_type)
